@@ -17,7 +17,7 @@ EXPLANATION = (
     "outside it (double-checked locking).")
 NOT_DECIDED = "that concurrent results equal serial results (an equality of executions)"
 
-TECHNIQUE = ('lockset-style audit: every write to mutable members / non-const statics reachable from per-stream entry points must be lock-dominated, atomic or stream-indexed; double-checked-locking detection; reachability of registry mutators')
+TECHNIQUE = ('lockset-style audit: every write to mutable members / non-const statics reachable from per-stream entry points must be lock-dominated, atomic or stream-indexed; double-checked-locking detection; reachability of registry mutators; element-only modification of the per-stream store vectors')
 
 UNITS = [
     "src/celeritas/user/ActionDiagnostic.cc", "src/celeritas/user/StepDiagnostic.cc",
